@@ -48,6 +48,9 @@ class VLoop(asyncio.AbstractEventLoop):
         return self.call_at(self._time + delay, callback, *args, context=context)
 
     def call_at(self, when, callback, *args, context=None):
+        # the virtual clock has microsecond resolution: 0.3 + 0.1 + 0.1 and 0.3 + 0.2 are the same instant (binary
+        # floating point would order them), equal deadlines fire in creation order
+        when = round(when * 1e6) / 1e6
         h = events.TimerHandle(when, callback, args, self, context)
         self._tseq += 1
         heapq.heappush(self._timers, (when, self._tseq, h))
